@@ -651,6 +651,13 @@ func genNumeral(r *rand.Rand) string {
 }
 
 var mutAlphabet = []byte("0123456789abcdefxXeEpP.+-_ \tniou")
+// notBlankWraps: byte sequences that are "space" to Unicode-aware trimming
+// (NBSP, NEL, EM SPACE, IDEOGRAPHIC SPACE, LINE SEPARATOR as UTF-8; lone
+// 0xA0 / 0x85) but not blanks of the C locale: a numeral wrapped in them is
+// not a numeral.
+var notBlankWraps = [][2]string{{"\xc2\xa0", ""}, {"", "\xc2\xa0"}, {"\xc2\x85", ""}, {"", "\xe2\x80\x83"}, {"\xe3\x80\x80", ""}, {"", "\xe2\x80\xa8"},
+	{"\xa0", ""}, {"", "\x85"}, {"\xc2\xa0", "\xc2\xa0"}, {" \xc2\xa0", ""}, {"", "\xe2\x80\x83 "}}
+
 var blankWraps = [][2]string{{" ", ""}, {"", " "}, {" ", " "}, {"\t", "\n"}, {"  ", "\t "}, {"\n\n", ""}, {"", "\t\t"}}
 
 func mutate(r *rand.Rand, s string) string {
@@ -739,6 +746,10 @@ func runNum(c *fw.Ctx, h *holder) {
 		spell(s, "grammar")
 		w := blankWraps[c.R.Intn(len(blankWraps))]
 		spell(w[0]+s+w[1], "grammar_blanks")
+		if c.R.Intn(4) == 0 {
+			u := notBlankWraps[c.R.Intn(len(notBlankWraps))]
+			spell(u[0]+s+u[1], "grammar_non_ascii_space")
+		}
 		if c.R.Intn(2) == 0 {
 			spell([]string{"-", "+"}[c.R.Intn(2)]+s, "grammar_signed")
 		}
@@ -987,6 +998,11 @@ func runBase(c *fw.Ctx, h *holder) {
 			s = w[0] + s + w[1]
 		case 1:
 			s = mutate(c.R, s)
+		case 2:
+			if c.R.Intn(3) == 0 {
+				u := notBlankWraps[c.R.Intn(len(notBlankWraps))]
+				s = u[0] + s + u[1]
+			}
 		}
 		one(s, base)
 		if i < 1 && c.Shard == 1 {
